@@ -1,26 +1,11 @@
 //! C05 obligations: `ParseError::new` designates a line of the input and a
 //! column range inside that line.
 use super::super::*;
-use crate::lex::verif_kani::common::ascii_str;
 
-/// Requires: `span` is a sub-slice of `input` (that is the function's real
-/// precondition - the `assert!` at its top).  Every string of exactly N bytes
-/// over {'\n', 'a', ' '} and the sub-slice [S, E).  N, S, E are constants of the
-/// obligation (with symbolic S, E the searcher (`memchr`) runs on slices of symbolic
-/// length: N = 1 took 326 s, N = 2 did not finish in 400 s).
-fn parse_error_new<const N: usize, const S: usize, const E: usize>() {
-    let mut buf = [0u8; N];
-    let mut i = 0;
-    while i < N {
-        buf[i] = match kani::any::<u8>() % 3 {
-            0 => b'\n',
-            1 => b'a',
-            _ => b' ',
-        };
-        i += 1;
-    }
-    let input = ascii_str(&buf, N);
-    let (s, e) = (S, E);
+/// Requires: `span` is a sub-slice of `input` on character boundaries (the `assert!` at
+/// the top of `new` is the function's real precondition).  Checks one (input, span).
+fn check_one(buf: &[u8; 8], n: usize, s: usize, e: usize) {
+    let input = unsafe { std::str::from_utf8_unchecked(&buf[..n]) };
     let span = &input[s..e];
     let err = ParseError::new(input, (LexErrorKind::EOF, span));
     // reference: line containing byte offset s
@@ -35,7 +20,7 @@ fn parse_error_new<const N: usize, const S: usize, const E: usize>() {
         i += 1;
     }
     let mut line_end = line_start;
-    while line_end < N && buf[line_end] != b'\n' {
+    while line_end < n && buf[line_end] != b'\n' {
         line_end += 1;
     }
     assert!(err.line_number == line_no, "the error designates the line where the span starts");
@@ -45,46 +30,98 @@ fn parse_error_new<const N: usize, const S: usize, const E: usize>() {
     );
     assert!(err.span_start == s - line_start, "the column is the offset inside that line");
     assert!(err.span_start + err.span_len <= err.input.len(), "the column range lies inside the line");
-    assert!(err.span_len <= e - s);
     // the span is cut at the end of its first line, not shortened otherwise
     assert!(err.span_len == if e <= line_end { e - s } else { line_end - s }, "the column range is the span cut at the end of the line");
-    kani::cover!(line_no == S, "every byte before the span is a line break");
-    kani::cover!(line_no == 0, "span on the first line");
-    kani::cover!(err.span_len == E - S, "span inside one line");
+    assert!(
+        err.input.is_char_boundary(err.span_start) && err.input.is_char_boundary(err.span_start + err.span_len),
+        "the column range can be sliced out of the line"
+    );
     std::mem::forget(err);
 }
 
-macro_rules! case {
-    ($name:ident, $n:literal, $s:literal, $e:literal) => {
-        #[kani::proof]
-        #[kani::unwind(6)]
-        fn $name() {
-            parse_error_new::<$n, $s, $e>()
+/// EVERY text of K items over {'\n', 'a', ' ', 'é' (2 bytes)} and EVERY sub-slice of it
+/// on character boundaries, enumerated with concrete loops: CBMC executes each call of
+/// the real `ParseError::new` on constants.  (The symbolic formulation - N symbolic
+/// bytes, symbolic or constant span - costs 220-330 s for ONE byte and does not finish
+/// in 400 s for two: the substring searcher (`memchr`) on symbolic content.)
+fn parse_error_new_all<const K: usize>() {
+    let mut total = 1;
+    let mut k = 0;
+    while k < K {
+        total *= 4;
+        k += 1;
+    }
+    let mut calls = 0u32;
+    let mut later_line = 0u32;
+    let mut idx = 0;
+    while idx < total {
+        // decode idx into K letters
+        let mut buf = [0u8; 8];
+        let mut n = 0;
+        let mut rem = idx;
+        let mut k = 0;
+        while k < K {
+            match rem % 4 {
+                0 => {
+                    buf[n] = b'\n';
+                    n += 1;
+                }
+                1 => {
+                    buf[n] = b'a';
+                    n += 1;
+                }
+                2 => {
+                    buf[n] = b' ';
+                    n += 1;
+                }
+                _ => {
+                    buf[n] = 0xc3;
+                    buf[n + 1] = 0xa9;
+                    n += 2;
+                }
+            }
+            rem /= 4;
+            k += 1;
         }
-    };
+        let mut s = 0;
+        while s <= n {
+            if s == n || buf[s] & 0xc0 != 0x80 {
+                let mut e = s;
+                while e <= n {
+                    if e == n || buf[e] & 0xc0 != 0x80 {
+                        check_one(&buf, n, s, e);
+                        calls += 1;
+                        if s > 0 && buf[s - 1] == b'\n' && e > s {
+                            later_line += 1;
+                        }
+                    }
+                    e += 1;
+                }
+            }
+            s += 1;
+        }
+        idx += 1;
+    }
+    kani::cover!(calls > 0 && (K < 2 || later_line > 0), "enumeration completed, including spans on a later line");
 }
 
-case!(parse_error_new__len1_span_0_0, 1, 0, 0);
-case!(parse_error_new__len1_span_0_1, 1, 0, 1);
-case!(parse_error_new__len1_span_1_1, 1, 1, 1);
+#[kani::proof]
+#[kani::unwind(8)]
+fn parse_error_new__all_texts_of_1_item() {
+    parse_error_new_all::<1>()
+}
 
-case!(parse_error_new__len2_span_0_0, 2, 0, 0);
-case!(parse_error_new__len2_span_0_1, 2, 0, 1);
-case!(parse_error_new__len2_span_0_2, 2, 0, 2);
-case!(parse_error_new__len2_span_1_1, 2, 1, 1);
-case!(parse_error_new__len2_span_1_2, 2, 1, 2);
-case!(parse_error_new__len2_span_2_2, 2, 2, 2);
+#[kani::proof]
+#[kani::unwind(18)]
+fn parse_error_new__all_texts_of_2_items() {
+    parse_error_new_all::<2>()
+}
 
-case!(parse_error_new__len3_span_0_0, 3, 0, 0);
-case!(parse_error_new__len3_span_0_1, 3, 0, 1);
-case!(parse_error_new__len3_span_0_2, 3, 0, 2);
-case!(parse_error_new__len3_span_0_3, 3, 0, 3);
-case!(parse_error_new__len3_span_1_1, 3, 1, 1);
-case!(parse_error_new__len3_span_1_2, 3, 1, 2);
-case!(parse_error_new__len3_span_1_3, 3, 1, 3);
-case!(parse_error_new__len3_span_2_2, 3, 2, 2);
-case!(parse_error_new__len3_span_2_3, 3, 2, 3);
-case!(parse_error_new__len3_span_3_3, 3, 3, 3);
+#[kani::proof]
+#[kani::unwind(66)]
+fn parse_error_new__all_texts_of_3_items() {
+    parse_error_new_all::<3>()
+}
 
 /// Regression obligation with a multi-byte character in front of the span on a later
 /// line: `"é\nxé y"`, span = the `y` (byte 7).  Columns are BYTE offsets inside the line;
